@@ -81,7 +81,38 @@ impl<T> vstd::std_specs::core::IndexSpecImpl<TermIndex> for TermVec<T> {
 //@  |             ensures *r == old(self).0@[index.0 as int], final(self).0@ == old(self).0@.update(index.0 as int, *final(r)),
 //@end
 //@macro SYM IDX create_index invoked_in=IDX index=SymbolIndex collection=SymbolVec
-//@struct SYM SymbolIndex derive=Copy,Clone,PartialEq
+//@struct SYM SymbolIndex derive=Copy,Clone,PartialEq,Eq,PartialOrd,Ord
+//@end
+// Assumption (listed in evidence): the *derived* PartialEq/PartialOrd/Ord of the usize newtype compare the single
+// field -- what #[derive] generates.  Stated through vstd's spec traits so that BTreeSet's contracts apply.
+impl vstd::std_specs::cmp::PartialEqSpecImpl for SymbolIndex {
+    open spec fn obeys_eq_spec() -> bool { true }
+    open spec fn eq_spec(&self, other: &Self) -> bool { self.0 == other.0 }
+}
+impl vstd::std_specs::cmp::PartialOrdSpecImpl for SymbolIndex {
+    open spec fn obeys_partial_cmp_spec() -> bool { true }
+    open spec fn partial_cmp_spec(&self, other: &Self) -> Option<Ordering> {
+        Some(if self.0 < other.0 { Ordering::Less } else if self.0 == other.0 { Ordering::Equal } else { Ordering::Greater })
+    }
+}
+impl vstd::std_specs::cmp::OrdSpecImpl for SymbolIndex {
+    open spec fn obeys_cmp_spec() -> bool { true }
+    open spec fn cmp_spec(&self, other: &Self) -> Ordering {
+        if self.0 < other.0 { Ordering::Less } else if self.0 == other.0 { Ordering::Equal } else { Ordering::Greater }
+    }
+}
+pub proof fn lemma_symbol_index_is_a_btree_key()
+    ensures vstd::laws_cmp::obeys_cmp::<SymbolIndex>(), vstd::std_specs::btree::key_obeys_cmp_spec::<SymbolIndex>(),
+{
+    broadcast use vstd::std_specs::btree::axiom_key_obeys_cmp_spec_meaning;
+    reveal(vstd::laws_cmp::obeys_partial_cmp_spec_properties);
+    reveal(vstd::laws_cmp::obeys_cmp_partial_ord);
+    reveal(vstd::laws_cmp::obeys_cmp_ord);
+    reveal(vstd::laws_eq::obeys_eq_spec_properties);
+    reveal(vstd::laws_eq::obeys_eq);
+}
+//@macro ITM IDX create_index invoked_in=TBL index=ItemIndex collection=ItemVec
+//@struct ITM ItemIndex derive=Copy,Clone
 //@end
 //@macro NTI IDX create_index invoked_in=IDX index=NonTermIndex collection=NonTermVec
 //@struct NTI NonTermIndex derive=Copy,Clone
@@ -113,7 +144,7 @@ impl<T> vstd::std_specs::core::IndexSpecImpl<NonTermIndex> for NonTermVec<T> {
 //@end
 //@struct GRM Terminal fields=idx,assoc
 //@end
-//@struct GRM Grammar fields=productions,terminals,augmented_index,augmented_layout_index
+//@struct GRM Grammar fields=productions,terminals,augmented_index,augmented_layout_index,stop_index
 //@end
 //@enum SET ParserAlgo
 //@end
@@ -401,6 +432,46 @@ pub assume_specification<T: PartialEq> [<[T]>::contains] (s: &[T], x: &T) -> (r:
 //@  |                 &&& final(state).actions == old(state).actions
 //@  |                 &&& final(state).gotos.0@ == old(state).gotos.0@.update(target_state_symbol.0 - self.grammar.terminals.0@.len(), Some(target_state_idx))
 //@  |             }, // [C01]
+//@end
+
+// ---- C01: ACCEPT where STOP follows the dot (calc_states) -----------------------------------------------------------------------
+//@lift ACB accept_block
+//@impl ACB /^impl < 'g , 's > LRTable < 'g , 's >/
+//@  fn accept_block
+//@  |         requires
+//@  |             old(state).actions.0@.len() == self.grammar.terminals.0@.len(),
+//@  |             self.grammar.stop_index.0 < self.grammar.terminals.0@.len(), // STOP is a terminal
+//@  |         ensures
+//@  |             final(state).gotos == old(state).gotos,
+//@  |             final(state).max_prior_for_term == old(state).max_prior_for_term,
+//@  |             // [C01] a state with an item that has STOP after the dot accepts on STOP -- the cell of STOP becomes exactly [ACCEPT] -- and
+//@  |             // only such a state; no other cell changes
+//@  |             final(state).actions.0@.len() == old(state).actions.0@.len(),
+//@  |             forall|t: int| 0 <= t < old(state).actions.0@.len() ==> (#[trigger] final(state).actions.0@[t])@ ==
+//@  |                 (if t == self.grammar.stop_index.0 && per_next_symbol@.contains_key(self.grammar.stop_index) { seq![Action::Accept] } else { old(state).actions.0@[t]@ }), // [C01]
+//@  before 1 "for &symbol in"
+//@  |             proof { lemma_symbol_index_is_a_btree_key(); }
+//@  |             let ghost stop = self.grammar.stop_index;
+//@  loop 1 iter=kit
+//@  |                 invariant_except_break
+//@  |                     *state == *old(state), // [C01]
+//@  |                     forall|i: int| 0 <= i < kit.index() ==> *kit.seq()[i] != stop, // [C01] nothing is written before STOP is met
+//@  |                 invariant
+//@  |                     kit.seq().unref().to_set() == per_next_symbol@.dom(),
+//@  |                     stop == self.grammar.stop_index,
+//@  |                     old(state).actions.0@.len() == self.grammar.terminals.0@.len(),
+//@  |                     stop.0 < self.grammar.terminals.0@.len(),
+//@  |                 ensures
+//@  |                     state.gotos == old(state).gotos,
+//@  |                     state.max_prior_for_term == old(state).max_prior_for_term,
+//@  |                     state.actions.0@.len() == old(state).actions.0@.len(),
+//@  |                     forall|t: int| 0 <= t < old(state).actions.0@.len() ==> (#[trigger] state.actions.0@[t])@ ==
+//@  |                         (if t == stop.0 && per_next_symbol@.contains_key(stop) { seq![Action::Accept] } else { old(state).actions.0@[t]@ }), // [C01]
+//@  before 1 "break;"
+//@  |                     proof {
+//@  |                         assert(kit.seq().unref()[kit.index() as int] == *kit.seq()[kit.index() as int]);
+//@  |                         assert(kit.seq().unref().contains(stop));
+//@  |                     }
 //@end
 
 //@lift AGB aug_block
